@@ -485,6 +485,15 @@ C04_owned(g, o, ln) ==
                   /\ \E i \in WIdx(o) : p \in Pids(o.w[i]) /\ o.w[i].n \in SeqToSet(o.wl)
          /\ KSt(o, p) # "zombie"
          /\ (KSt(o, p) = "reaped" => p \notin AllTracked(o))
+\* "zombie children never outlive one periodic check", also when the checks leave no trace of their own (nothing is
+\* tracked, nothing to look at): a child of the daemon that has been a zombie for two check delays during which
+\* nothing stood in the way of a check
+C04_zombie(g, o2, ln) ==
+   (ln.cb = 0 /\ ln.k \in {"tick", "end", "probe"} /\ g.bootDone /\ g.cfg.cd > 0 /\ g.closed = {} /\ ~o2.stopping /\ ~g.blocked
+      /\ o2.slot = "")
+     => \A p \in 1..NK(o2) :
+          (KSt(o2, p) = "zombie" /\ KPar(o2, p) = 0 /\ p \in 1..Len(g.diedAt) /\ g.diedAt[p] # -1)
+             => ln.t - Max2(g.diedAt[p], g.idleSince) <= 2 * g.cfg.cd + 100
 C04_status(o, ln, o2) ==
    /\ \A i \in WIdx(o2) : (o2.w[i].st = "stopped" /\ ~o2.w[i].od) => o2.w[i].pr = <<>>
    /\ (ln.cb = 0 /\ ln.k \in {"tick", "req", "probe", "end"} /\ Quiet(o2))
@@ -762,7 +771,7 @@ Clauses(g, o, ln, o2, g2) ==
     C03_stopsig |-> C03_stopsig(g, g2, o, o2),
     C12_conv |-> C12_conv(g, o, o2), C12_keep |-> C12_keep(g, o, o2),
     C04_list |-> C04_list(g2, o2, ln), C04_count |-> C04_count(g2, o2, ln), C04_owned |-> C04_owned(g2, o2, ln),
-    C04_status |-> C04_status(o, ln, o2),
+    C04_status |-> C04_status(o, ln, o2), C04_zombie |-> C04_zombie(g2, o2, ln),
     C05_noblock |-> C05_noblock(ln), C05_readnow |-> C05_readnow(g, ln), C05_bound |-> C05_bound(g, o, ln),
     C06_reply |-> C06_reply(g, ln), C06_status |-> C06_status(ln), C06_all |-> C06_all(g, ln),
     C08_done |-> C08_done(g2, o2, ln),
